@@ -1656,9 +1656,8 @@ Qed.
 Lemma conv_out_conv x r : src_ok x -> In r (rels_or_nil E p x) ->
   conv_rel x (out_rel x (conv_rel x r)) = conv_rel x r.
 Proof.
-  intros Hx Hin. pose proof (rel_sem_roundtrip E p Hwf cb c Hcb Hc x r Hx Hin) as H.
-  unfold rel_sem in H. unfold conv_rel at 1. inversion H as [[H1 H2 H3 H4]].
-  rewrite H1, H2, H3, H4. reflexivity.
+  intros Hx Hin. pose proof (rel_sem_roundtrip E p Hwf c x r Hx Hin) as H.
+  unfold rel_sem in H. unfold conv_rel at 1 3. injection H as H1 H2 H3 H4. congruence.
 Qed.
 
 Lemma lrel_leb_total (a b : lrel) :
@@ -1701,8 +1700,8 @@ Proof.
       eapply Permutation_in in Hl; [|apply sort_by_perm]. apply in_map_iff in Hl as (r0' & <- & Hr0).
       destruct (Hall r0' Hr0) as [_ Hnr].
       assert (Hs0 : In r0' (rels_or_nil E p x)) by (rewrite (rels_or_nil_eq E p _ _ Hrs); auto).
-      pose proof (rel_sem_roundtrip E p Hwf cb c Hcb Hc x r0' Hs Hs0) as Hsem.
-      unfold rel_sem in Hsem. rewrite He in Hsem. inversion Hsem as [[H1 H2 H3 H4]].
+      pose proof (rel_sem_roundtrip E p Hwf c x r0' Hs Hs0) as Hsem.
+      unfold rel_sem in Hsem. rewrite He in Hsem. injection Hsem as H1 H2 H3 H4.
       rewrite <- H3 in H4. rewrite H4. apply Hnr. auto.
   - intros x Hx Hn. apply reach_s1 in Hx. apply (wf_part_name E p Hwf); auto.
   - intros x y Hx Hy. apply reach_s1 in Hx, Hy. apply (wf_case E p Hwf); auto.
